@@ -6,6 +6,7 @@ import NgVerif.Model.Routing
 import NgVerif.Model.Shard
 import NgVerif.Model.CsegDecode
 import NgVerif.Model.Raw
+import NgVerif.Model.Coords
 /-
   ngdriver: line protocol. One request per line on stdin (space-separated tokens),
   one reply per line on stdout. Unknown / malformed requests answer `bad-request`.
@@ -83,6 +84,45 @@ def parseBlk (t : String) : Option Cseg.Blk3 :=
 
 def showErr : Cseg.Err → String
   | .format => "format" | .struct => "struct" | .value => "value" | .index => "index"
+
+def parseBox (t : String) : Option Coords.Box :=
+  match parseList parseInt t with
+  | some [a, b, c, d, e, f] => some ⟨a, b, c, d, e, f⟩
+  | _ => none
+
+def parseTriples (t : String) : Option (List (Int × Int × Int)) :=
+  (t.splitOn "/").mapM fun x => match parseList parseInt x with
+    | some [a, b, c] => some (a, b, c)
+    | _ => none
+
+/-- history over the raw codec: ops `w|box|values` and `r|box`, separated by `;` -/
+def ioHistory (isz : Nat) (size : Int × Int × Int) (css : List (Int × Int × Int)) (ops : List String) : String :=
+  let valid : Coords.Key → Bool := fun k => Coords.validate size css k.2
+  let dec : Bytes → Option (List Nat) := fun b =>
+    match Raw.decode isz (b.length / isz) b with | .ok a => some a | .error _ => none
+  let rec go (s : Coords.Store) (ops : List String) (acc : List String) : List String :=
+    match ops with
+    | [] => acc.reverse
+    | op :: t =>
+      match op.splitOn "|" with
+      | ["w", b, v] =>
+        match parseBox b, parseList parseNat v with
+        | some b, some v =>
+          match Coords.write valid (Raw.encode isz) s ("k", b) v with
+          | .ok s' => go s' t ("ok" :: acc)
+          | .error _ => go s t ("offgrid" :: acc)
+        | _, _ => go s t ("bad" :: acc)
+      | ["r", b] =>
+        match parseBox b with
+        | some b =>
+          match Coords.read valid dec s ("k", b) with
+          | .ok a => go s t (showNatList a :: acc)
+          | .error .offGrid => go s t ("offgrid" :: acc)
+          | .error .missing => go s t ("missing" :: acc)
+          | .error .format => go s t ("format" :: acc)
+        | none => go s t ("bad" :: acc)
+      | _ => go s t ("bad" :: acc)
+  ";".intercalate (go Coords.Store.empty ops [])
 
 def handle (toks : List String) : String :=
   match toks with
@@ -188,6 +228,17 @@ def handle (toks : List String) : String :=
       | .ok n => s!"ok {n}"
       | .error _ => "err format"
     | _, _, _, _, _, _, _ => "bad-request"
+  | ["coords-validate", size, css, boxes] =>
+    match (parseList parseInt size), parseTriples css with
+    | some [sx, sy, sz], some css =>
+      "".intercalate ((boxes.splitOn "/").map fun bx => match parseBox bx with
+        | some b => if Coords.validate (sx, sy, sz) css b then "1" else "0"
+        | none => "?")
+    | _, _ => "bad-request"
+  | ["io-history", isz, size, css, ops] =>
+    match parseNat isz, (parseList parseInt size), parseTriples css with
+    | some i, some [a, b, c], some css => ioHistory i (a, b, c) css (ops.splitOn ";")
+    | _, _, _ => "bad-request"
   | _ => "bad-request"
 
 partial def loop (h : IO.FS.Stream) (out : IO.FS.Stream) : IO Unit := do
